@@ -94,6 +94,13 @@ func (t *RetryTransaction) timeout() {
 	t.retryNumMutex.Lock()
 	defer t.retryNumMutex.Unlock()
 
+	select {
+	case <-t.Done():
+		// The transaction has finished while the timer was firing.
+		return
+	default:
+	}
+
 	t.retryNum++
 	if t.retryNum > t.retryCount {
 		t.Fail(ErrNoMoreRetries)
@@ -101,6 +108,7 @@ func (t *RetryTransaction) timeout() {
 	}
 	if err := t.retryCallback(t.Data); err != nil {
 		t.Fail(err)
+		return
 	}
 	t.restartTimer()
 }
